@@ -219,7 +219,8 @@ def auto_discharge(facts, s, cache):
             ops = rng[2]["rv"]["ops"]
             descs = [describe(b, o) for o in ops]
             span_bounds = all(re.match(r"(start|end)\(", d) for d in descs)
-            if span_bounds and describe(b, c.args[0]) in ("code",):
+            root0 = call_chain(b, c.args[0])[1]
+            if span_bounds and root0[0] == "param" and b.local_ty(root0[1]) in ("&str", "&'static str"):
                 return "bounds are start()/end() of a pest span over the same &str (char boundaries, start <= end <= len)"
     return None
 
